@@ -12,15 +12,37 @@ theorem good_parseString {src st} (hi : Inv src st) : Good src (parseString st) 
   good_tac
 macro_rules | `(tactic| good_lemma) => `(tactic| exact good_parseString (by inv_tac))
 
+theorem takeWhile_ne_lt {s : Str} {c : Char} (hc : c ∈ s) : (s.takeWhile (· != c)).length < s.length := by
+  induction s with
+  | nil => simp at hc
+  | cons d r ih =>
+    by_cases hd : d = c
+    · simp [hd]
+    · have hc' : c ∈ r := by
+        simp only [List.mem_cons] at hc
+        rcases hc with h | h
+        · exact absurd h.symm hd
+        · exact h
+      have hne : (d != c) = true := by simp [hd]
+      simp only [List.takeWhile_cons, hne, if_true, List.length_cons]
+      have := ih hc'
+      omega
+
+theorem findIdx_none {s : Str} {c : Char} (h : findIdx s c = none) : c ∉ s := by
+  intro hc
+  have hlt := takeWhile_ne_lt hc
+  simp [findIdx, hlt] at h
+
 theorem good_parsePackageName {src st} (hi : Inv src st) : Good src (parsePackageName st) := by
   unfold parsePackageName
   apply good_bind (good_parseToken hi _)
   intro p heq hp
   obtain ⟨t, st1⟩ := p
   dsimp only at hp ⊢
-  have hs := parseToken_slice hi heq
+  obtain ⟨hs, hk⟩ := parseToken_slice hi heq
+  have hall := (hk (by decide)).1
   apply good_bind_pure
-  · intro e he; exact parseVersionAt_err hs he (fun i h => findIdx_lt h)
+  · intro e he; exact parseVersionAt_err hs hall he (fun i h => findIdx_lt h)
   · intro v _; exact good_ok hp
 macro_rules | `(tactic| good_lemma) => `(tactic| exact good_parsePackageName (by inv_tac))
 
@@ -30,11 +52,13 @@ theorem good_parsePackagePath {src st} (hi : Inv src st) : Good src (parsePackag
   intro p heq hp
   obtain ⟨t, st1⟩ := p
   dsimp only at hp ⊢
-  have hs := parseToken_slice hi heq
+  obtain ⟨hs, hk⟩ := parseToken_slice hi heq
+  obtain ⟨hall, hslash⟩ := hk (by decide)
   split
-  · exact good_err (by simp [GoodErr])
+  · rename_i hnone
+    exact absurd (hslash rfl) (findIdx_none hnone)
   · apply good_bind_pure
-    · intro e he; exact parseVersionAt_err hs he (fun i h => findIdx_lt h)
+    · intro e he; exact parseVersionAt_err hs hall he (fun i h => findIdx_lt h)
     · intro v _; exact good_ok hp
 macro_rules | `(tactic| good_lemma) => `(tactic| exact good_parsePackagePath (by inv_tac))
 
@@ -335,7 +359,8 @@ theorem good_parseStatements {src} (fuel : Nat) : ∀ (n : Nat) (st : PState), I
 
 /-- the state `Lexer::new` starts from satisfies the invariant -/
 theorem init_inv (src : Str) : Inv src (PState.init src) :=
-  ⟨rfl, rfl, tokenize_slices src, Or.inr ⟨[], [], src, by simp, by simp [PState.init], by simp [PState.init]⟩⟩
+  ⟨rfl, rfl, tokenize_slices src, Or.inr ⟨[], [], src, by simp, by simp [PState.init], by simp [PState.init]⟩,
+    Wac.Lemmas.LexAscii.tokenize_pkg src⟩
 
 /-- every diagnostic of `parseTokens` is good -/
 theorem parseTokens_err {src : Str} {e : ParseError} (h : parseTokens (PState.init src) = .error e) : GoodErr src e := by
